@@ -8,6 +8,14 @@ proportion blocks are compared with the public row/column/table proportions.
 Property oracles on the implementation alone: range [0,1] and NaN <=> zero base outside
 difference vectors, sum to one along categorical dimensions, percentages = 100 x,
 margin proportion = margin / table base.
+ORDER-INDEPENDENT LEG: the statement must hold whatever was read before.  For every case a second
+partition is built from the same arguments (half of them with a population), EVERY public property
+of the partition (enumerated by introspection, + row_order / column_order / pairwise methods) is
+read in a random order (seeded by the case number), and only then the proportions, percentages,
+margin proportions, counts and bases are read: they must be value-exact equal (NaN = NaN) to the
+ones of the fresh partition the model and the oracles were run on; when they are not, the property
+oracles are run on the late values as well and the single earlier reads that change the value are
+named in the report.
 """
 import json
 import math
@@ -17,6 +25,7 @@ from fractions import Fraction
 from harness import core, impl
 from harness.core import g_bool, g_mat, g_nat, g_subtotals, g_vec
 from harness.props import common_cases as cc
+from harness.props import c18_util as hu      # public reads by introspection, canonical values
 
 PID = "C03"
 IMPORTS = """From Coq Require Import QArith ZArith List Bool.
@@ -42,6 +51,74 @@ def impl_run(case):
           "types": [str(t).split(".")[-1] for t in p.dimension_types]}
     io["v"] = cc.read(p, N1 if p.ndim == 1 else N2)
     return io
+
+
+def preread_reads(part):
+    return list(hu.READS.get(type(part).__name__, []))
+
+
+def late_run(case):
+    """the N1 / N2 reads on a partition all of whose public properties were read before, in a
+    random order that depends on the case number only (so that a replay repeats it)"""
+    rng = random.Random(1000003 * int(case.get("k", 0)) + 17)
+    population = rng.choice([None, 1000, 75])
+    p = impl.partition(case["response"], case["transforms"], population=population)
+    reads = preread_reads(p)
+    rng.shuffle(reads)
+    for name, args in reads:
+        impl.get(p, name, *args)
+    io = {"ndim": p.ndim, "dims": impl.dims_info(p), "subs": impl.subtotal_idxs(p),
+          "types": [str(t).split(".")[-1] for t in p.dimension_types],
+          "preread": [n for n, _a in reads], "population": population}
+    io["v"] = cc.read(p, N1 if p.ndim == 1 else N2)
+    return io
+
+
+def canon_read(r):
+    return ["ok", hu.canon(r[1])] if r[0] == "ok" else ["exc", r[1]]
+
+
+def culprits(case, io2, name, expected, limit=4):
+    """the single earlier reads after which `name` already differs from the fresh value"""
+    out = []
+    for pre in io2["preread"]:
+        if pre == name:
+            continue
+        p = impl.partition(case["response"], case["transforms"], population=io2["population"])
+        args = [a for n, a in preread_reads(p) if n == pre][0]
+        impl.get(p, pre, *args)
+        if canon_read(impl.get(p, name)) != expected:
+            out.append(pre)
+            if len(out) >= limit:
+                break
+    return out
+
+
+def order_independence(case, io, fails):
+    """C03's reads after every other public read vs the same reads on a fresh partition"""
+    io2 = late_run(case)
+    names = N1 if io["ndim"] == 1 else N2
+    differing = []
+    for n in names:
+        a, b = canon_read(io["v"][n]), canon_read(io2["v"][n])
+        if a != b:
+            differing.append(n)
+            if len(differing) == 1:
+                fails.append(("%s depends on what was read before" % n,
+                              {"fresh": a, "after_other_reads": b, "population": io2["population"],
+                               "single_earlier_reads_that_change_it": culprits(case, io2, n, a)},
+                              {"measure": n, "oracle": "order_independent"}))
+    if differing and not cc.any_exc(io2["v"]):
+        # which part of the statement the late values break
+        late = []
+        if build_term(case, io2) is not None:
+            if io2["ndim"] == 1:
+                oracle_1d(io2, late)
+            else:
+                oracle_2d(case, io2, late)
+        for what, detail, ctx in late:
+            fails.append((what + " (after other reads)", detail, dict(ctx, oracle="order_independent")))
+    return io2
 
 
 def build_term(case, io):
@@ -198,6 +275,47 @@ def oracle_2d(case, io, fails):
                                       {"measure": pname, "oracle": "margin_prop", "cls": cls}))
 
 
+def oracle_1d(io, fails):
+    """Property-level checks on a strand's outputs alone."""
+    v = io["v"]
+    n, ns = io["dims"]
+    ro = v["row_order"][1]
+    ib, isub = impl.blocks1d(v["table_proportions"][1], ro, n, ns)
+    (cb, cs), (bb, bs) = io["blk"]["counts"], io["blk"]["bases"]
+    for i, x in enumerate(ib):
+        if math.isnan(x):
+            if not (bb[i] == 0):
+                fails.append(("strand NaN-but-base-nonzero", {"row": i}, {"oracle": "nan_iff"}))
+        elif not (-1e-12 <= x <= 1 + 1e-12) or bb[i] == 0:
+            fails.append(("strand out-of-range", {"row": i, "value": x}, {"oracle": "bounds"}))
+    # subtotal rows: NaN exactly where the base is zero (sums AND differences); the range claim is
+    # for the sums only.  On a categorical-date strand a difference's proportion is defined by the
+    # wave rule (may be NaN on a positive base), so those are left to the model comparison.
+    date = io["types"][0] == "CAT_DATE"
+    for i, x in enumerate(isub):
+        is_diff = len(io["subs"][0][i][1]) > 0
+        if date and is_diff:
+            continue
+        if math.isnan(x):
+            if not (bs[i] == 0 or math.isnan(bs[i])):
+                fails.append(("strand subtotal NaN-but-base-nonzero", {"subtotal": i, "base": bs[i],
+                                                                      "difference": is_diff},
+                              {"oracle": "nan_iff"}))
+        elif bs[i] == 0:
+            fails.append(("strand subtotal not-NaN-on-zero-base", {"subtotal": i, "value": x},
+                          {"oracle": "nan_iff"}))
+        elif not is_diff and not (-1e-12 <= x <= 1 + 1e-12):
+            fails.append(("strand subtotal out-of-range", {"subtotal": i, "value": x}, {"oracle": "bounds"}))
+    if io["types"][0] in ("CAT", "CAT_DATE") and n and bb[0] > 0:
+        s = sum(Fraction(x) for x in ib)
+        if abs(s - 1) > Fraction(1, 10**9):
+            fails.append(("strand proportions do-not-sum-to-1", {"sum": float(s)}, {"oracle": "sum_one"}))
+    P, Q = v["table_proportions"][1], v["table_percentages"][1]
+    if not all((math.isnan(a) and math.isnan(b)) or core.close(b, core.to_exact(a) * 100)
+               for a, b in zip(P.tolist(), Q.tolist())):
+        fails.append(("strand percentages", {"props": P, "pct": Q}, {"oracle": "pct"}))
+
+
 def _xdiv(a, b):
     a, b = core.to_exact(a), core.to_exact(b)
     if a == "nan" or b == "nan":
@@ -223,22 +341,7 @@ def compare(case, io, toks):
         if not core.close_vec(isub, msub, inf_sign=False):
             fails.append(("strand table_proportions.subtotals", {"impl": isub, "model": msub, "subs": io["subs"], "types": io["types"]},
                           {"measure": "table_proportions", "block": "inserted_rows"}))
-        # oracles
-        (cb, cs), (bb, bs) = io["blk"]["counts"], io["blk"]["bases"]
-        for i, x in enumerate(ib):
-            if math.isnan(x):
-                if not (bb[i] == 0):
-                    fails.append(("strand NaN-but-base-nonzero", {"row": i}, {"oracle": "nan_iff"}))
-            elif not (-1e-12 <= x <= 1 + 1e-12) or bb[i] == 0:
-                fails.append(("strand out-of-range", {"row": i, "value": x}, {"oracle": "bounds"}))
-        if io["types"][0] in ("CAT", "CAT_DATE") and n and bb[0] > 0:
-            s = sum(Fraction(x) for x in ib)
-            if abs(s - 1) > Fraction(1, 10**9):
-                fails.append(("strand proportions do-not-sum-to-1", {"sum": float(s)}, {"oracle": "sum_one"}))
-        P, Q = v["table_proportions"][1], v["table_percentages"][1]
-        if not all((math.isnan(a) and math.isnan(b)) or core.close(b, core.to_exact(a) * 100)
-                   for a, b in zip(P.tolist(), Q.tolist())):
-            fails.append(("strand percentages", {"props": P, "pct": Q}, {"oracle": "pct"}))
+        oracle_1d(io, fails)
         return fails
     blk = io["blk"]
     for pname in ("row_proportions", "column_proportions", "table_proportions"):
@@ -288,7 +391,15 @@ def evaluate(cases, rep, tag="cases"):
         if nt:
             rep.sample({"types": io["types"], "dims": io["dims"], "subs": io["subs"],
                         "transforms": case["transforms"]})
-        for what, detail, ctx in compare(case, io, toks):
+        found = compare(case, io, toks)
+        io2 = order_independence(case, io, found)
+        rep.cov["evaluations"] += 1
+        rep.dist("late-reads:" + ("strand" if io["ndim"] == 1 else "slice"))
+        rep.dist("late-reads:population=%s" % ("yes" if io2["population"] is not None else "none"))
+        if io["ndim"] == 1 and io2["population"] is not None and \
+                any(len(s[1]) > 0 for s in io["subs"][0]):
+            rep.dist("late-reads:strand+difference+population")
+        for what, detail, ctx in found:
             rep.violation("impl-vs-model" if "impl-vs-model" in what else "impl-vs-property",
                           cc.replayable(case), dict(detail, what=what), dict(ctx, types="x".join(io["types"])))
     return coq_s, len(terms)
